@@ -107,9 +107,14 @@ def run(ctx):
     c06items, nund, _ = c06.build_items(ctx, True)
     texts = [i["text"] for i in c06items[nund:]]
     ctx.rng.shuffle(texts)
+    # programs whose output begins and ends with sign operators / comments ending in them: state that a
+    # writer carried over from one compilation to the next would show
+    texts = ["--a\nb--", "-a\nb++", "++a\na--", "--a // x-\n", "a-- // +\n++b", "-a\n// <\n", "!a\nb--"] + texts
     for n, e in enumerate(orders):
         for k in range(2 if quick else 8):
             items.append(dict(part="orders", id="o%d:%d" % (n, k), order=e["order"], text=texts[(n * 8 + k) % len(texts)]))
+        if len(e["order"]) == 2:      # two different programs through two compilations in a row (same process)
+            items.append(dict(part="orders", id="o%d:x" % n, order=e["order"], text=texts[n % 7]))
     ctx.cov["schedules"] = len(sched)
     ctx.cov["compile_orders"] = len(orders)
     ctx.cov["samples"] = [dict(jobs=[j["ops"] for j in items[5]["jobs"]], order=items[5]["order"]),
